@@ -108,6 +108,23 @@ def gen_runs(rng, oracle, pool, tier):
                 D('lib', [D('deep', [F('E.sol', pick(rng))])])]
         for sigma in itertools.permutations(range(4)):
             runs.append(Run([base[i] for i in sigma], cat, ps, 'creation', 'given'))
+    # 3c. symbolic links: a linked sub-directory and a linked file are analysed like ordinary ones (the walker
+    #     follows links; the directory model takes the tree as seen through them), in every category
+    for cat in cats:
+        ps = pick_ps(rng, oracle, cat)
+        pick = content_picker(oracle, pool, cat, ps)
+        if pick is None:
+            continue
+        for variant in range(2):
+            linked = D('linked', [F('In.sol', pick(rng)), D('deep', [F('E.sol', pick(rng))])])
+            linked['link'] = True
+            lf = F('Lnk.sol', pick(rng))
+            lf['link'] = True
+            inner = D('sub', [F('B.sol', pick(rng))])
+            if variant:
+                inner['ch'].append(dict(linked, name='again'))
+            t = [F('A.sol', pick(rng)), linked, lf, inner]
+            runs.append(Run(t, cat, ps, 'symlink'))
     # 4. runs that must abort: an eligible file that is unreadable / rejected by the parser /
     #    panics a detector, somewhere in the tree; and the same with an empty pattern list
     bad = [c for n, c in pool if not all(oracle.good_for(c, cat, oracle.names(cat)) for cat in cats)]
